@@ -31,7 +31,10 @@ BATTERY = [1e-05, 1e-7, 1e22, 1.5e300, float('nan'), float('inf'), float('-inf')
 
 
 def plan(tier, seed):
-    return [{'slice': i, 'cost': 1} for i in range(NSHARDS)] + [{'slice': 'no-text', 'cost': 1}]
+    # the two whole-list shards use every type class in one process, in opposite orders: a validation table cached on a
+    # base class by whichever type is used first shows up in one of them
+    return [{'slice': i, 'cost': 1} for i in range(NSHARDS)] + [{'slice': 'no-text', 'cost': 1},
+                                                              {'slice': 'all-sorted', 'cost': 2}, {'slice': 'all-reversed', 'cost': 2}]
 
 
 def all_types():
@@ -138,9 +141,17 @@ def run_shard(shard, tier, seed):
         return {'evaluations': evals, 'distinct_nontrivial': nontriv, 'violations': viol,
                 'samples': [{'class': 'XMLPitch', 'value': 'hello'}], 'counters': dict(c), 'exhaustive': True}
 
-    types = [t for i, t in enumerate(all_types()) if i % NSHARDS == shard['slice']]
+    whole = isinstance(shard['slice'], str)
+    if whole:
+        types = all_types()
+        if shard['slice'] == 'all-reversed':
+            types = types[::-1]
+    else:
+        types = [t for i, t in enumerate(all_types()) if i % NSHARDS == shard['slice']]
     forms = pool()
     els, attrs = carriers()
+    if whole:
+        els, attrs = {}, {}          # type classes only
     for t in types:
         cname = 'XSDSimpleType' + lib._cap(t.split(':')[-1])
         tcls = getattr(xs_, cname, None)
